@@ -512,3 +512,32 @@ def lower_defers(body, rettype='int', scoped_lock=None, what=''):
     tail = ' exit_: ' + ' '.join('if (d_%d_) { %s }' % (k, items[k][3]) for k in reversed(range(len(items)))) + \
            (' return;' if void else ' return ret_;') + ' '
     return body[:ob + 1] + ' ' + decl + body[ob + 1:cb] + tail + body[cb:]
+
+
+def init_list_statements(sig, what=''):
+    """`Ctor(params) : a(e1), b(e2)`  ->  'this->a = (e1); this->b = (e2);'  (member-initialiser list of a constructor)."""
+    sig = strip_comments(sig)
+    op = find_code_char(sig, '(', 0)
+    cp = find_matching(sig, op)
+    colon = find_code_char(sig, ':', cp)
+    if colon < 0:
+        raise ExtractionError('%s: constructor without initialiser list' % what)
+    rest = sig[colon + 1:]
+    out = []
+    i = 0
+    while i < len(rest):
+        m = re.compile(r'\s*([A-Za-z_]\w*)\s*\(').match(rest, i)
+        if not m:
+            break
+        o = m.end() - 1
+        c = find_matching(rest, o)
+        out.append('this->%s = (%s);' % (m.group(1), rest[o + 1:c].strip()))
+        i = c + 1
+        m2 = re.compile(r'\s*,').match(rest, i)
+        if m2:
+            i = m2.end()
+        else:
+            break
+    if not out:
+        raise ExtractionError('%s: empty initialiser list' % what)
+    return ' '.join(out)
